@@ -20,3 +20,8 @@ pub use companion::BasicDataCompanion;
 pub use basic::NoOpCompanion;
 
 pub use basic::*;
+
+// verification hook: lets an external Kani harness name the settings types that the public
+// `BasicGarnishData::new_with_settings` takes (small heaps, every growth policy). Kani sets `--cfg kani`.
+#[cfg(kani)]
+pub use storage::{ReallocationStrategy, StorageBlock, StorageSettings};
